@@ -242,6 +242,89 @@ def run_conv(eng, p):
     return "ok"
 
 
+def run_cfgfile(eng, p):
+    """the real load_from_file on a configuration text whose section header
+    and key have SYMBOLIC letter case and whose (str-typed) value is a
+    string of symbolic digits: the value must arrive unchanged under the
+    lower-case section / key"""
+    from vf.symx import SStr
+    sec, key, nd = p["sec"], p["key"], p["nd"]
+    hbits = [bool(eng.branch(eng.bool("H%d" % i).e)) for i in range(len(sec))]
+    kbit = bool(eng.branch(eng.bool("K0").e))
+    digits = [eng.int("d%d" % i) for i in range(nd)]
+    for d in digits:
+        eng.assume((d >= 48) & (d <= 57))
+    header = "[" + "".join(c.upper() if b else c
+                           for c, b in zip(sec, hbits)) + "]\n"
+    kname = (key[0].upper() if kbit else key[0]) + key[1:]
+    line = SStr(list(kname + " = ") + list(digits) + ["\n"])
+    lines = ["# comment\n", header, line, "\n"]
+
+    class Path:
+        def __init__(self, nm):
+            pass
+
+        def resolve(self):
+            return self
+
+        def open(self, *a, **k):
+            return self
+
+        def __enter__(self):
+            return self
+
+        def __exit__(self, *a):
+            return False
+
+        def readlines(self):
+            return list(lines)
+
+    class pathlib_shim:
+        pass
+    pathlib_shim.Path = Path
+
+    class _StrMeta(type):
+        def __instancecheck__(cls, x):
+            return isinstance(x, (str, SStr))
+
+        def __call__(cls, x=""):
+            return x if isinstance(x, SStr) else str(x)
+    STR_T = _StrMeta("str", (), {})
+    import dclab.definitions as dfn
+    real_get = dfn.get_config_value_func
+
+    def get_func(sec_, key_):
+        g = real_get(sec_, key_)
+        if g is str:
+            return STR_T
+        return g
+    dfn_shim = type("dfn", (), {})()
+    for k in dir(dfn):
+        if not k.startswith("__"):
+            setattr(dfn_shim, k, getattr(dfn, k))
+    dfn_shim.get_config_value_func = get_func
+    ns = shadow(CF, dfn=dfn_shim, pathlib=pathlib_shim, str=STR_T)
+    with quiet():
+        cfg = ns["load_from_file"]("mem.cfg")
+    eng.prove(z3.BoolVal(list(cfg.keys()) == [sec]),
+              "config file: section stored under its lower-case name",
+              info={"sections": list(cfg.keys())})
+    if sec in cfg:
+        d = cfg[sec]
+        eng.prove(z3.BoolVal(list(d.keys()) == [key]),
+                  "config file: key stored under its lower-case name",
+                  info={"keys": list(d.keys())})
+        if key in d:
+            got = d[key]
+            ok = isinstance(got, (SStr, str))
+            eng.prove(z3.BoolVal(ok), "config file: str-typed value stays "
+                      "a string", info={"type": type(got).__name__})
+            if ok:
+                eng.prove(SStr.lift(got).eq(SStr(list(digits))),
+                          "config file: str-typed value is stored unchanged")
+    return "ok"
+
+
 def run_fintlist(eng, p):
     ns = shadow(MP, float=FLOAT_T, int=INT_T, bool=BOOL_T)
     n = p["n"]
@@ -317,7 +400,9 @@ def run_case(name, params):
         return run_crosshair(params["name"], params["line"],
                              params["budget"])
     eng = Engine(timeout_ms=20000)
-    if params["kind"] == "conv":
+    if params["kind"] == "cfgfile":
+        eng.explore(lambda e: run_cfgfile(e, params))
+    elif params["kind"] == "conv":
         eng.explore(lambda e: run_conv(e, params))
     else:
         eng.explore(lambda e: run_fintlist(e, params))
@@ -345,6 +430,12 @@ def cases(tier, seed):
                                  keys=keys)))
     for n in range(0, 4):
         out.append(("fintlist n=%d" % n, dict(kind="fintlist", n=n)))
+    for sec, key in (("user", "batch"), ("setup", "identifier"),
+                     ("experiment", "sample")):
+        if sec == "experiment" and tier == "quick":
+            continue
+        out.append(("config file [%s] %s" % (sec, key),
+                    dict(kind="cfgfile", sec=sec, key=key, nd=2)))
     budget = 40 if tier == "quick" else 240
     for name, line in ch_conditions():
         out.append(("crosshair %s" % name, dict(kind="ch", name=name,
@@ -375,6 +466,35 @@ def replay(case, params, v):
                     "detail": det}
         return {"reproduced": True,
                 "key": "%s|%s" % (params["name"], _norm(call)), "detail": det}
+    if params["kind"] == "cfgfile":
+        import tempfile
+        from dclab.rtdc_dataset.config import load_from_file
+        sec, key, nd = params["sec"], params["key"], params["nd"]
+        hdr = "".join(c.upper() if vals.get("H%d" % i, False) else c
+                      for i, c in enumerate(sec))
+        kname = (key[0].upper() if vals.get("K0", False) else key[0]) + \
+            key[1:]
+        fails = []
+        for digits in ["".join(chr(int(vals.get("d%d" % i, 48) or 48))
+                               for i in range(nd)), "0815", "07"]:
+            with tempfile.TemporaryDirectory(prefix="verif_c11_") as td, \
+                    quiet():
+                pth = os.path.join(td, "c.cfg")
+                with open(pth, "w") as fd:
+                    fd.write("# comment\n[%s]\n%s = %s\n\n" % (
+                        hdr, kname, digits))
+                cfg = load_from_file(pth)
+            got = cfg.get(sec, {}).get(key, None)
+            if got != digits:
+                fails.append("[%s] %s = %s is loaded as %r (sections %r)" % (
+                    hdr, kname, digits, got, list(cfg.keys())))
+                break
+        if fails:
+            return {"reproduced": True,
+                    "key": "load_from_file|%s|value-changed" % sec,
+                    "detail": fails[0]}
+        return {"reproduced": False, "key": "not-reproduced",
+                "detail": "config file loads unchanged on the real code"}
     if params["kind"] == "fintlist":
         from dclab.definitions import meta_parse as mp
         lst = [int(vals.get("v%d" % i, 0)) for i in range(params["n"])]
